@@ -400,4 +400,20 @@ theorem keep_indices_refuted :
   norm_num
   rfl
 
+/-- 2-D routing: a ball / capsule stays itself exactly when `scale.x = scale.y`; every other variant keeps its variant -/
+theorem scaleDynKind2_iff (s : V2 K) :
+    letI := fieldNum K sq
+    (scaleDynKind2 s .ball = .ball ↔ s.x = s.y) ∧ (scaleDynKind2 s .capsule = .capsule ↔ s.x = s.y) ∧
+    scaleDynKind2 s .cuboid = .cuboid ∧ scaleDynKind2 s .seg = .seg ∧ scaleDynKind2 s .tri = .tri ∧ scaleDynKind2 s .hs = .hs ∧
+    scaleDynKind2 s .polygon = .polygon ∧ scaleDynKind2 s .polyline = .polyline ∧ scaleDynKind2 s .hf = .hf ∧
+    scaleDynKind2 s .rcuboid = .rcuboid ∧ scaleDynKind2 s .rpolygon = .rpolygon := by
+  letI := fieldNum K sq
+  simp only [scaleDynKind2, and_self, and_true]
+  constructor <;>
+  · split_ifs with h
+    · rw [neqb sq] at h
+      simp only [reduceCtorEq, false_iff]; exact h
+    · rw [neqb sq, not_not] at h
+      simp only [true_iff]; exact h
+
 end C19
